@@ -212,12 +212,12 @@ theorem leDesc_total (G : Graph) (a b : Nat) : (leDesc G a b || leDesc G b a) = 
   exact (List.le_total _ _).symm
 
 theorem sorted_pairwise (G : Graph) (ls : List Nat) :
-    (Sort.isort (leDesc G) ls).Pairwise (fun a b => leDesc G a b = true) :=
-  Sort.isort_pairwise (leDesc_trans G) (leDesc_total G) ls
+    (PySort.isort (leDesc G) ls).Pairwise (fun a b => leDesc G a b = true) :=
+  PySort.isort_pairwise (leDesc_trans G) (leDesc_total G) ls
 
 theorem mem_sorted (G : Graph) (ls : List Nat) (x : Nat) :
-    x ∈ Sort.isort (leDesc G) ls ↔ x ∈ ls :=
-  Sort.mem_isort _ _ _
+    x ∈ PySort.isort (leDesc G) ls ↔ x ∈ ls :=
+  PySort.mem_isort _ _ _
 
 theorem nodup_reverse' {l : List Nat} (h : l.Nodup) : l.reverse.Nodup := by
   unfold List.Nodup at *
@@ -272,7 +272,7 @@ theorem leDesc_antisymm {G : Graph} (hg : Good G) {a b : Nat}
   exact sortKey_inj hg (List.le_antisymm h2 h1)
 
 theorem sorted_perm_eq {G : Graph} (hg : Good G) {ls ls' : List Nat} (h : ls.Perm ls') :
-    Sort.isort (leDesc G) ls = Sort.isort (leDesc G) ls' :=
-  Sort.isort_perm_eq (leDesc_trans G) (leDesc_total G) (fun _ _ h1 h2 => leDesc_antisymm hg h1 h2) h
+    PySort.isort (leDesc G) ls = PySort.isort (leDesc G) ls' :=
+  PySort.isort_perm_eq (leDesc_trans G) (leDesc_total G) (fun _ _ h1 h2 => leDesc_antisymm hg h1 h2) h
 
 end Ztr.Layers
